@@ -365,6 +365,7 @@ func checkC17(c *Ctx) {
 	checkRangeKeepsEmpty(c, "C17.empty-range-kept")
 	checkDoubledOperatorCancels(c, "C17.doubled-operator-cancels")
 	checkSuggestionNotUnderOperator(c, "C17.suggestion-not-as-motion")
+	checkHistoryNotUnderOperator(c, "C17.history-not-as-motion")
 	checkC17PendingGuard(c)
 	checkRound4Misc(c, "C17")
 }
